@@ -398,6 +398,47 @@ func execOp(line string) string {
 		})
 	case "itemlen":
 		return guarded(func() string { return fmt.Sprintf("ok %d", getItem(NewR(args)).Len()) })
+	case "plist2":
+		// the same NackPair value read twice: PacketList, a Range stopped at its k-th call, PacketList again
+		return guarded(func() string {
+			r := NewR(args)
+			p := &rtcp.NackPair{PacketID: uint16(r.U()), LostPackets: rtcp.PacketBitmap(r.U())}
+			k := r.N()
+			l1 := p.PacketList()
+			calls := 0
+			p.Range(func(uint16) bool { calls++; return !(k > 0 && calls >= k) })
+			l2 := p.PacketList()
+			w := &W{}
+			w.S("ok").U(uint64(len(l1)))
+			for _, x := range l1 {
+				w.U(uint64(x))
+			}
+			w.S(";").U(uint64(len(l2)))
+			for _, x := range l2 {
+				w.U(uint64(x))
+			}
+			w.S(";").U(uint64(p.PacketID)).U(uint64(p.LostPackets))
+			return w.String()
+		})
+	case "decalias":
+		// does the decoded value share memory with the buffer it was decoded from? decode, scribble over the
+		// buffer, compare the value with what it was
+		raw := NewR(args).H()
+		buf := exactCap(raw)
+		return measured(len(buf), func() string {
+			p := newPacket(kind)
+			if err := p.Unmarshal(buf); err != nil {
+				return "err"
+			}
+			before := bodyTokens(p)
+			for i := range buf {
+				buf[i] ^= 0x5A
+			}
+			if bodyTokens(p) != before {
+				return "ok alias"
+			}
+			return "ok copy"
+		})
 	case "crt":
 		// CompoundPacket.Marshal, then CompoundPacket.Unmarshal of the result
 		return guarded(func() string {
@@ -771,6 +812,16 @@ func execCcfbBlock(kind string, r *R) string {
 
 func execCcfbMetric(kind string, r *R) string {
 	switch kind {
+	case "reuse":
+		var m rtcp.CCFeedbackMetricBlock
+		_ = rtcp.VerifCCFBMetricUnmarshal(&m, exactCap(r.H()))
+		if err := rtcp.VerifCCFBMetricUnmarshal(&m, exactCap(r.H())); err != nil {
+			return "err"
+		}
+		w := &W{}
+		w.S("ok")
+		putMetric(w, m)
+		return w.String()
 	case "enc":
 		b, err := rtcp.VerifCCFBMetricMarshal(getMetric(r))
 		if err != nil {
